@@ -20,11 +20,16 @@ func init() {
 		&slip.FuncDoc{
 			Name: "signal-wait",
 			Args: []*slip.DocArg{
-				{Name: "&rest"},
 				{
 					Name: "signal",
 					Type: "fixnum",
-					Text: "signals to wait for.",
+					Text: "The first signal to wait for.",
+				},
+				{Name: "&rest"},
+				{
+					Name: "signals",
+					Type: "fixnum",
+					Text: "More signals to wait for.",
 				},
 			},
 			Text: `__signal-wait__ blocks until one of the specified signals is received.`,
